@@ -13,6 +13,7 @@ from contracts.solve_util import *
 from jinns.utils._containers import (DataGeneratorContainer, OptimizationContainer, OptimizationExtraContainer,
                                      LossContainer, StoredObjectContainer)
 import optax
+import time
 
 META = dict(
     trusted_base=TRUSTED_B + ["iteration rule: init establishes the state, every step maps state to the reference loop's next "
@@ -397,6 +398,82 @@ def native_batch_size_witness():
     return None
 
 
+def native_resumed_rar(kind):
+    """a run resumed on the generator (and optimizer state) returned by a first run, for a refining generator: the second
+    call must run its n iterations; the active counts follow the schedule restarted at iteration 0"""
+    import numpy as np, warnings, optax
+    import equinox as eqx
+    import jinns
+    from jinns.parameters import Params
+    k = jax.random.PRNGKey(1)
+    rp = {"start_iter": 0, "update_every": 1, "sample_size_times": 4, "selected_sample_size_times": 2, "sample_size_omega": 5, "selected_sample_size_omega": 2}
+    with warnings.catch_warnings():
+        warnings.simplefilter("ignore")
+        if kind == "ODE":
+            class Dyn(jinns.loss.ODE):
+                def equation(self, t, u, params):
+                    return u(t, params) - jnp.sin(3 * t)
+            u = jinns.utils.create_PINN(jax.random.PRNGKey(0), ((eqx.nn.Linear, 1, 4), (jnp.tanh,), (eqx.nn.Linear, 4, 1)), "ODE")
+            g = jinns.data.DataGeneratorODE(k, 20, 0.0, 1.0, 2, "uniform", {q: v for q, v in rp.items() if "omega" not in q}, 4)
+            params = Params(nn_params=u.init_params(), eq_params={})
+            loss = jinns.loss.LossODE(u=u, dynamic_loss=Dyn(), params=params)
+        elif kind == "statio":
+            class Dyn(jinns.loss.PDEStatio):
+                def equation(self, x, u, params):
+                    return u(x, params) - jnp.sin(3 * x[0:1])
+            u = jinns.utils.create_PINN(jax.random.PRNGKey(0), ((eqx.nn.Linear, 2, 4), (jnp.tanh,), (eqx.nn.Linear, 4, 1)), "statio_PDE", 2)
+            g = jinns.data.CubicMeshPDEStatio(key=k, n=20, nb=None, omega_batch_size=2, omega_border_batch_size=None, dim=2, min_pts=(0.0, 0.0),
+                                              max_pts=(1.0, 1.0), rar_parameters={q: v for q, v in rp.items() if "times" not in q}, n_start=4)
+            params = Params(nn_params=u.init_params(), eq_params={})
+            loss = jinns.loss.LossPDEStatio(u=u, dynamic_loss=Dyn(), params=params)
+        else:
+            class Dyn(jinns.loss.PDENonStatio):
+                def equation(self, t, x, u, params):
+                    return u(t, x, params) - jnp.sin(3 * t) * x[0:1]
+            u = jinns.utils.create_PINN(jax.random.PRNGKey(0), ((eqx.nn.Linear, 3, 4), (jnp.tanh,), (eqx.nn.Linear, 4, 1)), "nonstatio_PDE", 2)
+            g = jinns.data.CubicMeshPDENonStatio(key=k, n=20, nb=None, nt=20, omega_batch_size=2, omega_border_batch_size=None, temporal_batch_size=2, dim=2,
+                                                 min_pts=(0.0, 0.0), max_pts=(1.0, 1.0), tmin=0.0, tmax=1.0, rar_parameters=rp, n_start=4, nt_start=4)
+            params = Params(nn_params=u.init_params(), eq_params={})
+            loss = jinns.loss.LossPDENonStatio(u=u, dynamic_loss=Dyn(), params=params)
+        tx = optax.sgd(1e-3)
+        out = jinns.solve(n_iter=2, init_params=params, data=g, loss=loss, optimizer=tx, verbose=False)
+
+        def active(gen):
+            return tuple(int((np.asarray(getattr(gen, f)) != 0).sum()) for f in ("p_times", "p_omega") if getattr(gen, f, None) is not None)
+        a1 = active(out[3])
+        try:
+            out2 = jinns.solve(n_iter=2, init_params=out[0], data=out[3], loss=loss, optimizer=tx, opt_state=out[5], verbose=False)
+        except Exception as e:
+            return [f"{kind} refining generator: solve(n_iter=2) then solve(n_iter=2) on the returned parameters, optimizer state and generator "
+                    f"raises {type(e).__name__}: {str(e).splitlines()[0][:200]}"]
+        a2 = active(out2[3])
+        if len(np.asarray(out2[1])) != 2 or not np.all(np.isfinite(np.asarray(out2[1]))) or any(y != x + 4 for x, y in zip(a1, a2)):
+            return [f"{kind} refining generator: resumed run of 2 iterations: loss history {np.asarray(out2[1]).tolist()}, active points {a1} -> {a2} "
+                    f"(expected +4 on each refined store)"]
+    return None
+
+
+def resumed_rar_ob(kind):
+    """bounded (native): the engines reach `init_rar` only through its contract; that the generator *returned* by solve is
+    again a legal argument of solve (sizes that must be static are still static) is a fact about Python types that neither
+    engine tracks.  Three generator kinds, one run each."""
+    name = f"C07/solve/ensures.returned_generator_is_resumable[{kind},refining,bounded]"
+    def run(seed):
+        t0 = time.time()
+        try:
+            wit = native_resumed_rar(kind)
+        except Exception as e:
+            return dict(status="undecided", backend="native(bounded)", bounded=True, solver_s=time.time() - t0, detail="native monitor failed: " + repr(e)[:200],
+                        replay=dict(native_disagrees=False))
+        if wit:
+            return dict(status="violated", failure="raises", backend="native(bounded)", bounded=True, solver_s=time.time() - t0, detail=wit[0],
+                        replay=dict(native_disagrees=True, native=wit[0], inputs=dict(kind=kind, n_iter=(2, 2)),
+                                    expected="the second call runs its 2 iterations from the returned state"))
+        return dict(status="discharged", backend="native(bounded)", bounded=True, solver_s=time.time() - t0,
+                    sample="one run per generator kind: 2 + 2 iterations, period 1", replay=dict(native_disagrees=False))
+    return FnObligation(name, run, ["jinns/solver/_solve.py::solve", "jinns/solver/_rar.py::init_rar"])
+
+
 def configs(tier):
     base = dict(opt="opaque", param=False, obs=False, tracked="none", ost=False)
     cs = [base, dict(base, opt="sgd"), dict(base, param=True, obs=True, tracked="both"), dict(base, tracked="a", ost=True),
@@ -425,6 +502,7 @@ def obligations(tier):
         obs.append(step(rar_config(), n_iters[0], i))                # with a refining generator (refinement by contract)
     for kind in ("ODE", "statio", "nonstatio"):
         obs.append(batch_size_check(kind))
+        obs.append(resumed_rar_ob(kind))
     # with a validation module attached (uninterpreted; its schedule is C19): the step is the same textbook step and
     # the tracked-parameter history still stores the iteration's own parameters
     from contracts import c19
